@@ -16,8 +16,8 @@ func init() {
 		assumeSite("C11-GLOBAL", e[0], e[1])
 	}
 	register(&PropDef{
-		ID:       "C11",
-		Patterns: []string{"./node", "./std/net/http", "./runtime", "./data"},
+		ID:          "C11",
+		Patterns:    []string{"./node", "./std/net/http", "./runtime", "./data"},
 		Explanation: "All requests run the same handler closure on the same AST in parallel goroutines. For 'a response depends on its request only' it is necessary that (GLOBAL) no code on the request path keeps request data in a package-level variable — every package-level variable of node and std/net/http that is written outside init is either synchronised process configuration, or a listed finding; (CTX) every ServeHTTP / middleware entry creates a fresh Context for the request (CreateContext) and binds the request and response objects into that context, never into the shared handler context. Response bytes and schedules are not enumerated.",
 		Assumptions: []string{
 			"request-path code = packages node and std/net/http (the evaluator and the HTTP binding)",
